@@ -13,6 +13,7 @@ import (
 )
 
 var reachExecs int
+var reachSamples []interface{}
 
 func perms(n int) [][]int {
 	if n == 0 {
@@ -152,7 +153,8 @@ func reachLayer(c *ev.Check, r *runner, a *agg, thorough bool, end time.Time) bo
 			continue
 		}
 		outcomes[rr.Outcome]++
-		if len(cases[i].Refresh) == 0 {
+		if len(cases[i].Refresh) == 0 && strings.Count(rr.SeedOrder, ",") == len(cases[i].Seeds)-1 {
+			// every seed was dialled (none answered before): the complete order the client tried
 			orders[fmt.Sprintf("%d:%s", len(cases[i].Seeds), rr.SeedOrder)] = true
 		}
 		for k, v := range rr.Stats {
@@ -172,15 +174,18 @@ func reachLayer(c *ev.Check, r *runner, a *agg, thorough bool, end time.Time) bo
 	}
 	sort.Strings(ol)
 	info := map[string]interface{}{"cases": len(cases), "executed": n, "per_family": fam, "bounds": bounds, "outcomes": outcomes, "distinct_outcomes": len(outcomes),
-		"seed_orders_actually_tried": ol, "open_points_hit": stats, "wall_s": time.Since(t0).Seconds()}
+		"complete_seed_orders_actually_tried": ol, "open_points_hit": stats, "wall_s": time.Since(t0).Seconds()}
+	if ok && n == len(cases) && len(ol) != 9 {
+		// 1! + 2! + 3! orders must have been tried by the client (the shuffle is fixed inside a bubble, the input list is permuted)
+		info["seed_order_coverage"] = fmt.Sprintf("INCOMPLETE: %d of 9 orders observed", len(ol))
+		ok = false
+	}
 	if !ok || n < len(cases) {
 		info["cut_by_internal_deadline"] = fmt.Sprintf("%d of %d cases executed", n, len(cases))
 		ok = false
 	}
 	c.Set("reachability", info)
-	for _, s := range sample {
-		c.AddSample(s)
-	}
+	reachSamples = sample
 	fmt.Printf("  reachability: %d/%d cases (%v), %d distinct outcomes, %d seed orders seen, %.1fs\n", n, len(cases), fam, len(outcomes), len(ol), time.Since(t0).Seconds())
 	return ok
 }
